@@ -137,17 +137,63 @@ def setHeightW (kv : KV) (h : Nat) : List WriteSet :=
   | .ok w => w
   | .error _ => []
 
-/-- `SaveBlockData` on the stored bytes: ONE batch of header, data, signature and hash → height index -/
-def saveBlobsWS (h : Nat) (hash : Bytes) (b : Block) : WriteSet :=
+/-- `getHeightByHash` -/
+def getHeightByHash (kv : KV) (hash : Bytes) : Except Err Nat :=
+  match kv.get (indexKey hash) with
+  | none => .error .notFound
+  | some b =>
+    match decodeHeight b with
+    | some h => .ok h
+    | none => .error .corrupt
+
+/-- `GetHeader(height)` followed by `.Hash()` on a stored header record: `none` = the record does not
+parse (any error of `GetHeader` makes `SaveBlockData` skip the clean-up) -/
+def storedHeaderHash (keyOk : Bytes → Bool) (hb : Bytes) : Option Bytes :=
+  (Wire.SignedHeader.decode keyOk hb).map (·.header.hash)
+
+/-- `getHeightByHash(x)` succeeds and returns `h` -/
+def indexPointsAt (kv : KV) (x : Bytes) (h : Nat) : Bool :=
+  match getHeightByHash kv x with
+  | .ok h' => h' == h
+  | .error _ => false
+
+/-- the hash whose index entry `SaveBlockData(h, hash)` deletes (since /repo 34bccfd): the hash of the
+header stored at `h` when it is another one than `hash` and its index entry still points at `h`.
+`hashOf` = `storedHeaderHash keyOk` in the typed operations. -/
+def staleHash (hashOf : Bytes → Option Bytes) (kv : KV) (h : Nat) (hash : Bytes) : Option Bytes :=
+  match kv.get (headerKey h) with
+  | none => none
+  | some ob =>
+    match hashOf ob with
+    | none => none
+    | some oh => if oh ≠ hash ∧ indexPointsAt kv oh h = true then some oh else none
+
+def staleIndexWS (hashOf : Bytes → Option Bytes) (kv : KV) (h : Nat) (hash : Bytes) : WriteSet :=
+  match staleHash hashOf kv h hash with
+  | some oh => [.del (indexKey oh)]
+  | none => []
+
+/-- the four puts of a block save -/
+def savePutsWS (h : Nat) (hash : Bytes) (b : Block) : WriteSet :=
   [ .put (headerKey h) b.header, .put (dataKey h) b.data, .put (signatureKey h) b.signature,
     .put (indexKey hash) (encodeHeight h) ]
 
-/-- `SaveBlockData(header, data, signature)` -/
-def saveBlockDataWS (sh : Wire.SignedHeader) (d : Wire.Data) (sig : Bytes) : WriteSet :=
-  saveBlobsWS sh.header.height sh.header.hash ⟨sh.encode, d.encode, sig⟩
+/-- `SaveBlockData` on the stored bytes: ONE batch — the delete of the replaced header's index entry
+(if any), then header, data, signature and hash → height index -/
+def saveBlobsWS (hashOf : Bytes → Option Bytes) (kv : KV) (h : Nat) (hash : Bytes) (b : Block) : WriteSet :=
+  staleIndexWS hashOf kv h hash ++ savePutsWS h hash b
 
-def saveBlockData (sh : Wire.SignedHeader) (d : Wire.Data) (sig : Bytes) : List WriteSet :=
-  [saveBlockDataWS sh d sig]
+/-- `SaveBlockData` as it was before /repo 34bccfd (kept for the witness of the repaired defect) -/
+def saveBlobsWSOld (h : Nat) (hash : Bytes) (b : Block) : WriteSet := savePutsWS h hash b
+
+/-- `SaveBlockData(header, data, signature)` -/
+def saveBlockDataWS (keyOk : Bytes → Bool) (kv : KV) (sh : Wire.SignedHeader) (d : Wire.Data) (sig : Bytes) :
+    WriteSet :=
+  saveBlobsWS (storedHeaderHash keyOk) kv sh.header.height sh.header.hash ⟨sh.encode, d.encode, sig⟩
+
+def saveBlockData (keyOk : Bytes → Bool) (kv : KV) (sh : Wire.SignedHeader) (d : Wire.Data) (sig : Bytes) :
+    List WriteSet :=
+  [saveBlockDataWS keyOk kv sh d sig]
 
 /-- `UpdateState` on the marshalled `pb.State` -/
 def updateStateWS (blob : Bytes) : WriteSet := [.put stateKey blob]
@@ -161,15 +207,6 @@ def getDataBlob (kv : KV) (h : Nat) : Except Err Bytes := getOr kv (dataKey h)
 
 /-- `GetSignature` -/
 def getSignature (kv : KV) (h : Nat) : Except Err Bytes := getOr kv (signatureKey h)
-
-/-- `getHeightByHash` -/
-def getHeightByHash (kv : KV) (hash : Bytes) : Except Err Nat :=
-  match kv.get (indexKey hash) with
-  | none => .error .notFound
-  | some b =>
-    match decodeHeight b with
-    | some h => .ok h
-    | none => .error .corrupt
 
 /-- `GetBlockData` before unmarshalling: header bytes and data bytes -/
 def getBlockBlobs (kv : KV) (h : Nat) : Except Err (Bytes × Bytes) :=
